@@ -34,6 +34,10 @@ import (
 type c07Conn struct {
 	*connector.Dummy
 	dir string
+	// serve: answer GetMessageLiteral (re-download of a lost cache file). Only the `redownload` scenario needs it;
+	// everywhere else the remote side has NOTHING to offer, so that a cache file gluon has lost or removed although
+	// its message is still listed shows up as a message that cannot be fetched (live and after the restart).
+	serve bool
 }
 
 func (c *c07Conn) remotePath(id imap.MessageID) string {
@@ -54,6 +58,9 @@ func (c *c07Conn) CreateMessage(ctx context.Context, w connector.IMAPStateWrite,
 }
 
 func (c *c07Conn) GetMessageLiteral(ctx context.Context, id imap.MessageID) ([]byte, error) {
+	if !c.serve {
+		return nil, connector.ErrNoSuchMessage
+	}
 	if b, err := c.Dummy.GetMessageLiteral(ctx, id); err == nil {
 		return b, nil
 	}
@@ -269,6 +276,26 @@ func (e *c07Env) prefix(op string) error {
 				return err
 			}
 		}
+	case "dupcopy":
+		// c1 is in INBOX and in mb1 (there: sequence number 4): COPY / MOVE towards a mailbox that already holds it
+		if err := e.sys.Conn.MessageAdded("c1", "mb1"); err != nil {
+			return err
+		}
+	case "rename2", "delete2":
+		// inferiors WITH messages: mb1/kid below the selected mailbox, INBOX/kid below INBOX (not for rename2 0:
+		// RENAME INBOX without inferiors)
+		kids := []string{"mb1/kid", "INBOX/kid"}
+		if op == "rename2" && e.inst == 0 {
+			kids = kids[:1]
+		}
+		for k, kid := range kids {
+			if err := e.must(c.Cmd("CREATE "+kid), "create "+kid); err != nil {
+				return err
+			}
+			if err := e.must(c.Append(kid, `\Flagged`, e.msg(fmt.Sprintf("k%d", k), 0)), "append to "+kid); err != nil {
+				return err
+			}
+		}
 	case "redownload":
 		// the cache loses the file of the first message of mb1 (m2), or of the big one (m4)
 		seq := 1
@@ -294,7 +321,10 @@ func (e *c07Env) prefix(op string) error {
 }
 
 var c07Ops = []string{"append", "copy", "move", "expunge", "create", "delete", "rename", "store", "subscribe",
-	"ccreate", "cflags", "cmailboxes", "cdeleted", "cupdated", "logout", "redownload"}
+	"ccreate", "cflags", "cmailboxes", "cdeleted", "cupdated", "logout", "redownload",
+	// operations on objects the server ALREADY HAS (a message named again by the connector, a message copied /
+	// moved into a mailbox that holds it), and mailbox operations on non-empty hierarchies
+	"cknown", "dupcopy", "rename2", "delete2"}
 
 // c07OpText: what the marked operation of (op, inst) is, for replay files and reports.
 func c07OpText(op string, inst int) string {
@@ -319,6 +349,10 @@ func c07OpText(op string, inst int) string {
 		"cupdated":   {"connector MessageUpdated c1 new literal -> INBOX", "connector MessageUpdated c1 new literal -> INBOX,mb1", "connector MessageUpdated c1 new big literal -> INBOX"},
 		"logout":     {"LOGOUT after connector MessageDeleted c1", "LOGOUT after MessageDeleted c1,c9", "LOGOUT after MessageDeleted c1,c9"},
 		"startup":    {"start-up of the user (one row marked deleted, one stale cache file)", "start-up of the user (marked row was in two mailboxes, one stale cache file)", "start-up of the user (marked row was in two mailboxes, one stale cache file)"},
+		"cknown":     {"connector MessagesCreated c1 (already known, in INBOX) -> mb2", "connector MessagesCreated batch [c1 known, c2 new, c2 again, c1 again] -> mb1", "connector MessagesCreated c1 (already known) -> INBOX (where it already is)"},
+		"dupcopy":    {"COPY 4 INBOX (c1 is already in INBOX)", "MOVE 4 INBOX (c1 is already in INBOX)", "COPY 1:4 INBOX (one of four already there)"},
+		"rename2":    {"RENAME INBOX arch (INBOX not empty, no inferiors)", "RENAME mb1 mbx (selected, holds messages, inferior mb1/kid holds a message)", "RENAME INBOX arch (INBOX not empty, inferior INBOX/kid holds a message)"},
+		"delete2":    {"DELETE mb1/kid (holds a message)", "DELETE mb1 (selected, holds messages, has the inferior mb1/kid)", "DELETE INBOX/kid (holds a message)"},
 		"redownload": {"FETCH 1 BODY.PEEK[] (cache file lost)", "FETCH 3 BODY.PEEK[] (cache file lost, 70kB)", "FETCH 3 BODY.PEEK[] (cache file lost, big)"},
 	}
 	return t[op][i]
@@ -390,6 +424,28 @@ func (e *c07Env) runOp(op string) (string, error) {
 		default:
 			return flush(e.connCreate("c2", "c2", c07Size(e.inst), imap.NewFlagSet(), "0"))
 		}
+	case "cknown":
+		date := time.Date(2020, 1, 2, 3, 4, 5, 0, time.UTC)
+		c1 := imap.Message{ID: "c1", Flags: imap.NewFlagSet(imap.FlagFlagged), Date: date}
+		l1 := e.msg("c1", 0)
+		switch i {
+		case 0:
+			return flush(e.sys.Conn.MessageCreated(c1, l1, []imap.MailboxID{"mb2"}))
+		case 1:
+			c2 := imap.Message{ID: "c2", Flags: imap.NewFlagSet(imap.FlagSeen), Date: date}
+			l2 := e.msg("c2", 0)
+			e.conn.persist("c2", l2)
+			mb := []imap.MailboxID{"mb1"}
+			return flush(e.sys.Conn.MessagesCreated([]imap.Message{c1, c2, c2, c1}, [][]byte{l1, l2, l2, l1}, [][]imap.MailboxID{mb, mb, mb, mb}))
+		default:
+			return flush(e.sys.Conn.MessageCreated(c1, l1, []imap.MailboxID{"0"}))
+		}
+	case "dupcopy":
+		return cmd("COPY 4 INBOX", "MOVE 4 INBOX", "COPY 1:4 INBOX")
+	case "rename2":
+		return cmd("RENAME INBOX arch", "RENAME mb1 mbx", "RENAME INBOX arch")
+	case "delete2":
+		return cmd("DELETE mb1/kid", "DELETE mb1", "DELETE INBOX/kid")
 	case "cflags":
 		if i == 1 {
 			return flush(e.sys.Conn.MessageFlagged("c1", false))
